@@ -65,6 +65,22 @@ Theorem C07_json_fuel_monotone : forall g bad f n d, marshal_err f g bad n d <> 
 Proof. exact marshal_err_mono. Qed.
 Print Assumptions C07_json_fuel_monotone.
 
+(* The fuel of the check decides: out of fuel |g|+1 means out of EVERY fuel (a node whose result
+   still changes at fuel k+1 needs k+1 further distinct such nodes: pigeonhole), and a result
+   reached with it is the result for every larger fuel.  So the model's verdict "Diverge" in
+   Check/C07.v is exact, and the partial theorem needs no bound on the rank. *)
+Theorem C07_json_fuel_decides : forall g bad n, n < List.length g ->
+  (marshal_g (json_fuel g) g bad n = JOut -> forall fuel, marshal_g fuel g bad n = JOut) /\
+  (marshal_g (json_fuel g) g bad n <> JOut ->
+     forall fuel, json_fuel g <= fuel -> marshal_g fuel g bad n = marshal_g (json_fuel g) g bad n).
+Proof. exact json_fuel_decides. Qed.
+Print Assumptions C07_json_fuel_decides.
+
+Theorem C07_json_check_fuel_suffices : forall g bad rank, G g -> edge_ranked g rank ->
+  forall n, is_errdef g n = true -> marshal_g (json_fuel g) g bad n <> JOut.
+Proof. exact json_fuel_suffices_any_rank. Qed.
+Print Assumptions C07_json_check_fuel_suffices.
+
 (* an error is returned only because of an unencodable field value *)
 Theorem C07_json_error_needs_bad_field : forall g f n d, marshal_err f g [] n d <> JFail.
 Proof. exact marshal_err_nofail. Qed.
